@@ -14,12 +14,20 @@ import (
 var run *hlib.Run
 
 // how long a Plan call may take before the harness reports "diverges"
-var planTimeout = 20 * time.Second
+var planTimeout = 8 * time.Second
 var rrTimeout = 3 * time.Second
+var lastPanic string
+
+// Plan calls that did not return keep spinning in their goroutine; after three of them per strategy the
+// harness stops calling that strategy (the failures are already recorded)
+var gaveUp = map[string]int{}
 
 // callPlan runs the real strategy in a goroutine guarded by a timeout.
 // status: ok | err | diverges | panic
 func callPlan(strat string, g *Group) (sarama.BalanceStrategyPlan, string) {
+	if gaveUp[strat] >= 3 {
+		return nil, "skipped"
+	}
 	members, topics := g.saramaInput()
 	type res struct {
 		plan sarama.BalanceStrategyPlan
@@ -29,6 +37,7 @@ func callPlan(strat string, g *Group) (sarama.BalanceStrategyPlan, string) {
 	go func() {
 		defer func() {
 			if r := recover(); r != nil {
+				lastPanic = fmt.Sprint(r)
 				ch <- res{nil, "panic"}
 			}
 		}()
@@ -39,7 +48,7 @@ func callPlan(strat string, g *Group) (sarama.BalanceStrategyPlan, string) {
 		case "rr":
 			s = sarama.BalanceStrategyRoundRobin
 		default:
-			s = sarama.BalanceStrategySticky
+			s = sarama.VerifNewSticky()
 		}
 		p, err := s.Plan(members, topics)
 		if err != nil {
@@ -56,6 +65,7 @@ func callPlan(strat string, g *Group) (sarama.BalanceStrategyPlan, string) {
 	case r := <-ch:
 		return r.plan, r.st
 	case <-time.After(to):
+		gaveUp[strat]++
 		return nil, "diverges"
 	}
 }
@@ -212,32 +222,42 @@ func rangeAux(g *Group) (string, bool) {
 	return strings.Join(out, ";"), collision
 }
 
-// classify an invalid sticky plan for the signature (history shape)
+// classify an invalid sticky plan by the shape of the input (for the signature): the previous-owner branch of
+// performReassignments is in play when a member claims, in its user data, a partition of a topic it does not list
 func stickyClass(g *Group, why, detail string) string {
-	if why != "unassigned" && why != "nonsubscriber" {
-		return ""
+	claims := func(m *Member, p TP) bool {
+		for _, q := range m.UD.Parts {
+			if q == p {
+				return true
+			}
+		}
+		return false
 	}
-	members, _ := g.saramaInput()
-	_, prev, err := sarama.VerifPrepopulate(members)
-	if err != nil {
-		return ""
-	}
-	var p TP
-	if why == "unassigned" {
-		p = parseTPs(detail)[0]
-	} else {
+	switch why {
+	case "unassigned":
+		p := parseTPs(detail)[0]
+		for i := range g.Members {
+			if claims(&g.Members[i], p) && !subscribed(&g.Members[i], p.T) {
+				return "/claimed-by-nonsubscriber"
+			}
+		}
+		// the parked member that lost its fixed assignment (revert path) shows up as holder of a stale claim
+		for i := range g.Members {
+			m := &g.Members[i]
+			for _, q := range m.UD.Parts {
+				if !subscribed(m, q.T) && g.topic(q.T) != nil && hasPart(g.topic(q.T), q.P) {
+					return "/some-stale-claim-by-nonsubscriber"
+				}
+			}
+		}
+	case "nonsubscriber":
 		f := strings.Fields(detail)
-		p = parseTPs(f[len(f)-1])[0]
+		p := parseTPs(f[len(f)-1])[0]
+		if m := g.member(f[0]); m != nil && claims(m, p) {
+			return "/own-stale-claim"
+		}
 	}
-	pv, ok := prev[sarama.VerifTP{Topic: p.T, Partition: p.P}]
-	if !ok {
-		return ""
-	}
-	pm := g.member(pv.Member)
-	if pm != nil && !subscribed(pm, p.T) {
-		return "/previous-owner-not-subscribed"
-	}
-	return "/has-previous-owner"
+	return ""
 }
 
 // doPlan runs one strategy on one group, emits the op lines and evaluates the oracles.
@@ -245,6 +265,10 @@ func stickyClass(g *Group, why, detail string) string {
 func doPlan(strat, kind string, g *Group) (Asg, map[string]string) {
 	ms, ts := g.membersStr(), g.topicsStr()
 	plan, st := callPlan(strat, g)
+	if st == "skipped" {
+		run.Count(strat + "-skipped-after-divergence")
+		return nil, nil
+	}
 	run.Count(strat)
 	// 1. differential line against the executable model (range, round-robin)
 	switch strat {
@@ -297,9 +321,14 @@ func doPlan(strat, kind string, g *Group) (Asg, map[string]string) {
 			bad = bad || m.UD.Kind == "bad"
 		}
 		expectErr := (strat == "sticky" && bad) || (strat == "rr" && (len(g.Members) == 0 || len(g.Topics) == 0))
-		run.Emit(op, st)
+		if strat == "sticky" && st == "diverges" {
+			// the op-level sticky model has no executable counterpart of a run that does not end: oracle only
+			run.Case(op + "  =>  diverges")
+		} else {
+			run.Emit(op, st)
+		}
 		if st == "panic" {
-			run.IOFail(strat+"-panic", op, "Plan panicked")
+			run.IOFail(strat+"-panic", op, "Plan panicked: "+lastPanic)
 		} else if st == "err" && !expectErr && PROP == "C08" {
 			run.IOFail(strat+"-unexpected-error", op, "Plan returned an error")
 		} else if st == "diverges" && strat != "rr" && PROP == "C08" {
@@ -347,7 +376,20 @@ func doPlan(strat, kind string, g *Group) (Asg, map[string]string) {
 			fail("sticky-leave-moved", "a remaining member lost a partition when another member left")
 		}
 		if v["join"] == "0" {
-			fail("sticky-join-shuffled", "a partition moved between old members when a member joined")
+			cls := ""
+			for _, t := range g.Topics {
+				if !g.hasSubscriber(t.Name) {
+					cls = "/topic-without-subscriber"
+				}
+			}
+			for i := range g.Members {
+				for _, t := range g.Members[i].Topics {
+					if cls == "" && listedTwice(&g.Members[i], t) {
+						cls = "/topic-listed-twice"
+					}
+				}
+			}
+			fail("sticky-join-shuffled"+cls, "a partition moved between old members when a member joined")
 		}
 		if v["swap"] == "0" {
 			fail("sticky-pairwise-swap", "two members exchanged partitions of one topic")
